@@ -64,6 +64,22 @@ def cong(e, n):
         return None
     if k == 'unwrap_or' and e[2] == ('const', 0) and is_start_opt(e[1]):
         return {'S': 1}
+    if k == 'phi' and len(e) > 3:
+        # `match self.start_index { Some(idx) => idx % n, None => 0 }`: every alternative is the start value (its Some payload, possibly reduced) or 0
+        kinds = set()
+        for a in e[3]:
+            x = a
+            while x[0] == 'bin' and x[1] == 'Rem' and x[3] == n:
+                x = x[2]
+            if x == ('const', 0):
+                kinds.add('zero')
+            elif x[0] in ('payload', 'payload0', 'tuplefield') and 'start_index' in repr(x) and 'Some' in repr(x):
+                kinds.add('start')
+            else:
+                return None
+        if kinds == {'zero', 'start'}:
+            return {'S': 1}
+        return None
     return None
 
 
@@ -263,6 +279,13 @@ def check_select(fx, rep, crate, cfg):
             if info.get('kind') == 'cmp' and info['op'] == 'Eq' and info['true'] == tgt:
                 a, bb = sym.expr(crate, body, info['a_op']), sym.expr(crate, body, info['b_op'])
                 if {a, bb} == {n, ('const', 0)}:
+                    fine = True
+            if body.term(sw).get('op_ty') == 'bool' and info.get('true') == tgt:
+                # `if self.futures.is_empty() { return Pending }`
+                tr_ = body.trace(body.term(sw)['op'])
+                if tr_.get('kind') == 'call' and tr_['callee'].get('name') == 'is_empty' and tr_['args'] and \
+                        sym.expr(crate, body, tr_['args'][0]) in (vec_e, ('ref', vec_e)) or \
+                        (tr_.get('kind') == 'call' and tr_['callee'].get('name') == 'is_empty' and tr_['args'] and 'futures' in repr(sym.expr(crate, body, tr_['args'][0]))):
                     fine = True
         if not fine:
             bad.append(C.where(body, b, i))
